@@ -71,6 +71,7 @@ fn main() {
                 "C15" => checks::c15::run(&tier, &args),
                 "C08" => checks::c08::run(&tier, &args),
                 "C07" => checks::c07::run(&tier, &args),
+                "C18" => checks::c18::run(&tier, &args),
                 _ => { eprintln!("unknown property {id}"); 2 }
             };
             std::process::exit(code);
